@@ -74,11 +74,17 @@ let reorder_after_fin (t : tev list) : tev list =
 
 (* candidate runs of one connection: (final state, labels skipped); one, or one per delivered prefix
    when the connection was reset *)
-let candidates (t : tev list) : (conn * int) list =
-  let one keep = (simulate keep t, int_of_nat (skipped_labels (conn_init false) (labels_of keep t))) in
+let rec seq_range a b : int Seq.t = fun () -> if a >= b then Seq.Nil else Seq.Cons (a, seq_range (a + 1) b)
+let rec seq_exists f (s : 'a Seq.t) = match s () with Seq.Nil -> false | Seq.Cons (x, r) -> f x || seq_exists f r
+let candidates_seq (t : tev list) : (conn * int) Seq.t =
+  let one keep () = (simulate keep t, int_of_nat (skipped_labels (conn_init false) (labels_of keep t))) in
   if has_rst t then
-    one None :: List.init (count_outs t + 1) (fun k -> one (Some (nat_of_int (count_outs t - k))))
-  else [one None]
+    (* lazily, most delivered first: the client usually has read everything written before the reset *)
+    let n = count_outs t in
+    Seq.append (Seq.return (one None ()))
+      (Seq.map (fun k -> one (Some (nat_of_int (n - 1 - k))) ()) (seq_range 0 n))
+  else Seq.return (one None ())
+let candidates (t : tev list) : (conn * int) list = List.of_seq (candidates_seq t)
 
 let rec product = function
   | [] -> [[]]
@@ -154,6 +160,10 @@ let verdict case impl =
        let per_conn = List.map markers_of conns in
        let seen = Array.make (nres + 1) 0 in
        List.iter (List.iter (fun m -> seen.(m) <- seen.(m) + 1)) per_conn;
+       (* every complete frame the mock wrote, by the request that held its stream id (one pass per
+          connection through the extracted [sent_table]) *)
+       let sent_tbl : (int, n list) Hashtbl.t = Hashtbl.create 64 in
+       List.iter (fun t -> List.iter (fun (r, b) -> Hashtbl.add sent_tbl (int_of_n r) b) (sent_table [] t)) conns;
        (* ---- 1. the property predicate on the implementation's own output, ALWAYS ---- *)
        let viol = ref [] in
        let add v = viol := v :: !viol in
@@ -166,11 +176,8 @@ let verdict case impl =
            if m <> i + 1 || padok <> "1" then
              add (Printf.sprintf "request-%d-got-foreign-or-damaged-body" (i + 1))
            else begin
-             let rid = n_of_rid (i + 1) in
-             let sent = List.exists (fun t ->
-               List.exists (fun s ->
-                 List.exists (fun b -> decode_echo px b = Some (m, p)) (sent_for s rid false t))
-                 (streams_of rid t)) conns in
+             let sent = List.exists (fun b -> decode_echo px b = Some (m, p))
+                 (Hashtbl.find_all sent_tbl (int_of_n (n_of_rid (i + 1)))) in
              if not sent then
                add (Printf.sprintf "request-%d-returned-a-body-never-completely-sent-for-it" (i + 1))
            end
@@ -203,13 +210,13 @@ let verdict case impl =
            end
          done;
          let conn_agrees t ms =
-           List.exists (fun (st, skipped) ->
+           seq_exists (fun (st, skipped) ->
              skipped = 0 &&
              List.for_all (fun m ->
                match expect_of_outcome px idem (outcome_of (n_of_rid m) st.c_done) with
                | Some e -> matches m e res_arr.(m - 1)
                | None -> matches m (ErrIn ["-"]) res_arr.(m - 1) (* only "cancelled" *)) ms)
-             (candidates t) in
+             (candidates_seq t) in
          let model_agrees =
            if independent then List.for_all2 conn_agrees conns per_conn && !unseen_ok
            else
